@@ -411,7 +411,7 @@ pub struct Area {
 /// not depend on how loaded or how short of memory the machine is) after which a single case counts
 /// as a hang of the implementation; ten times as much user + system time, and a wall-clock backstop
 /// for a case that blocks without using the CPU, end a case as well.
-pub const CASE_TIMEOUT_S: u64 = 60;
+pub const CASE_TIMEOUT_S: u64 = 180;
 pub const CASE_WALL_TIMEOUT_S: u64 = 1800;
 
 #[repr(C)]
@@ -552,7 +552,7 @@ pub fn run_cases(area: &Area, cmds: &[String], dir: &str, dist: &Dist) {
             if c == 0 {
                 return None;
             }
-            // user-mode time decides (60 s); user + system time only as a backstop ten times as large
+            // user-mode time decides (CASE_TIMEOUT_S); user + system time only as a backstop ten times as large
             let total = thread_cpu_ms(s.2.load(Ordering::SeqCst)).unwrap_or(0).saturating_sub(s.3.load(Ordering::SeqCst));
             let user = thread_user_ms(s.4.load(Ordering::SeqCst)).unwrap_or(total).saturating_sub(s.5.load(Ordering::SeqCst));
             let cpu = user.max(total / 10);
